@@ -165,6 +165,49 @@ func gptFaults(g *gptSpec, emit func(f c15Fault) bool) {
 			}
 		}
 	}
+	// the array-describing fields with BOTH checksums recomputed, so that the header is accepted and the array
+	// checksum matches whatever the header now describes (a shorter, longer, empty or differently strided array).
+	// A declared count that ends inside a sector leaves slots behind it that no checksum covers: they are filled
+	// with bytes that decode as a partition, which must not be listed.
+	arrayOf := map[string]string{"primary": "parray", "backup": "barray"}
+	junk := make([]byte, 128)
+	for i := range junk {
+		junk[i] = byte(0x11 + i%7)
+	}
+	binary.LittleEndian.PutUint64(junk[32:40], 40)
+	binary.LittleEndian.PutUint64(junk[40:48], 50)
+	for _, cnt := range []uint32{0, 1, 2, 3, 5, 6, 7, 9, 33, 126, 127} {
+		for _, tg := range targets {
+			var ps []c15Poke
+			for _, w := range tg {
+				ps = append(ps, c15Poke{Where: w, Off: 80, Hex: hexs(le(uint64(cnt), 4))}, c15Poke{Where: arrayOf[w], Off: int(cnt) * 128, Hex: hexs(junk)})
+			}
+			if !emit(c15Fault{Pokes: ps, FixACRC: true, FixHCRC: true}) {
+				return
+			}
+		}
+	}
+	for _, es := range []uint32{0, 1, 64, 127, 129, 256, 384, 512, 4096} {
+		for _, tg := range targets {
+			var ps []c15Poke
+			for _, w := range tg {
+				ps = append(ps, c15Poke{Where: w, Off: 84, Hex: hexs(le(uint64(es), 4))})
+			}
+			if !emit(c15Fault{Pokes: ps, FixACRC: true, FixHCRC: true}) {
+				return
+			}
+			// with fewer entries, so that count x size stays inside the array that is on disk
+			for _, cnt := range []uint32{0, 1, 4, 16} {
+				ps2 := append([]c15Poke(nil), ps...)
+				for _, w := range tg {
+					ps2 = append(ps2, c15Poke{Where: w, Off: 80, Hex: hexs(le(uint64(cnt), 4))})
+				}
+				if !emit(c15Fault{Pokes: ps2, FixACRC: true, FixHCRC: true}) {
+					return
+				}
+			}
+		}
+	}
 	// 2-field combinations of the size-determining fields
 	sizeFields := []gptField{{"mylba", 24, 8}, {"arraylba", 72, 8}, {"count", 80, 4}, {"entrysize", 84, 4}}
 	small := func(w int) [][]byte {
